@@ -396,20 +396,21 @@ class Signal(object):
         """
 
         mot = self.values
+        averaged = np.zeros(len(mot))  # separate float buffer: averages are of the original samples (also for int records)
 
         for i in range(len(mot)):
             if i < width / 2:
                 cc = i + int(width / 2) + 1
-                self._values[i] = np.mean(mot[:cc])
+                averaged[i] = np.mean(mot[:cc])
             elif i > len(mot) - width / 2:
                 cc = i - int(width / 2)
-                self._values[i] = np.mean(mot[cc:])
+                averaged[i] = np.mean(mot[cc:])
             else:
                 cc1 = i - int(width / 2)
                 cc2 = i + int(width / 2) + 1
-                self._values[i] = np.mean(mot[cc1:cc2])
+                averaged[i] = np.mean(mot[cc1:cc2])
 
-        self.clear_cache()
+        self.reset_values(averaged)
 
 
 class AccSignal(Signal):
